@@ -516,7 +516,9 @@ def run_traces(ctx, df, ntraces, embs):
 # ------------------------------------------------------------------ run
 def embs_for(tier, seed):
     if tier == "quick":
-        return [embed.DYADIC[1], embed.REAL[4]] + embed.seeded(seed, 1)
+        # (the nanometre embedding matters: seeded change C18-22 placed the guard nodes of the interpolation an ABSOLUTE 1e-9
+        # beyond the faces, which is invisible on unit-sized cells and a whole cell at the nanometre scale)
+        return [embed.DYADIC[1], embed.REAL[0], embed.REAL[4]] + embed.seeded(seed, 1)
     return [embed.DYADIC[1], embed.DYADIC[3], embed.REAL[0], embed.REAL[2], embed.REAL[4]] + embed.seeded(seed, 1)
 
 
